@@ -426,7 +426,7 @@ def parse_line(line):
         return "stmt", Stmt("unsupported", text=s)
     lhs = s[:k].strip()
     rhs = s[k + 1:].strip()
-    m = re.search(r"\) -> (\[return: bb(\d+), unwind[^\]]*\]|unwind [a-z]+(?:\([a-z]+\))?|\[return: bb(\d+)\]|unwind: bb\d+)$", rhs)
+    m = re.search(r"\) -> (\[return: bb(\d+), unwind[^\]]*\]|unwind [a-z]+(?:\([a-z]+\))?|\[return: bb(\d+)\]|unwind: bb\d+|bb\d+)$", rhs)
     if m:
         callpart = rhs[:m.start() + 1]
         # find the paren that matches the last ')'
